@@ -43,7 +43,16 @@ fn herr_text(e: &HErr) -> String {
     }
 }
 
+/// big inputs in a child process on a 2 MiB stack (`abort` = the reader took the process down)
 fn parse_text(text: &str) -> String {
+    if text.len() >= 1500 {
+        crate::isolate::run_child("hosts", text)
+    } else {
+        parse_text_of(text)
+    }
+}
+
+pub fn parse_text_of(text: &str) -> String {
     match catch_unwind(AssertUnwindSafe(|| Hosts::deserialise(text))) {
         Err(_) => "panic".to_string(),
         Ok(Ok(h)) => format!("ok {}", hosts_dump(&h)),
@@ -342,7 +351,7 @@ fn gen_name_text(r: &mut Rng, clean: bool) -> String {
         2 => ".a".to_string(),
         3 => "a..".to_string(),
         4 => "x".repeat(63),
-        5 => "x".repeat(64),
+        5 => "x".repeat(*r.pick(&[64usize, 64, 64, 254, 255, 256, 257, 300, 1000, 70_000])),
         6 => {
             // total length around the 255 limit: k labels of 49 octets (50 with length octet) + tail
             let mut v: Vec<String> = (0..5).map(|_| "y".repeat(49)).collect();
